@@ -18,6 +18,7 @@
  */
 
 #include <string.h>
+#include <ctype.h>
 #include <sys/types.h>
 
 #include "net_file.h"
@@ -680,17 +681,21 @@ int KSI_FsClient_extractPath(const char *uri, char **path) {
 	const char *scheme = "file://";
 	char *pathStart = NULL;
 	char *tmpPath = NULL;
+	size_t i;
 
 	if (path == NULL || uri == NULL) {
 		res = KSI_INVALID_ARGUMENT;
 		goto cleanup;
 	}
 
-	pathStart = strstr(uri, scheme) + strlen(scheme);
-	if (pathStart == NULL) {
-		res = KSI_INVALID_ARGUMENT;
-		goto cleanup;
+	/* The scheme is matched case insensitively (as it is when the transport is selected). */
+	for (i = 0; scheme[i] != '\0'; i++) {
+		if (tolower((unsigned char)uri[i]) != scheme[i]) {
+			res = KSI_INVALID_ARGUMENT;
+			goto cleanup;
+		}
 	}
+	pathStart = (char *)uri + strlen(scheme);
 
 	tmpPath = KSI_malloc(strlen(pathStart) + 1);
 	if (tmpPath == NULL) {
